@@ -495,6 +495,36 @@ func genPeerScenario(r *Rand) *Scenario {
 		TmpOther: r.Chance(1, 5)}
 }
 
+// resolveGate fixes where the first process of a two-process scenario parks: the gate_pick-th step boundary
+// of its own run alone (a site first, then one of its occurrences: a step that repeats per line does not crowd
+// out the rest). A scenario that names its gate already (a replay file) keeps it.
+func resolveGate(sc *Scenario, alone *Outcome) *Scenario {
+	var steps []Event
+	for _, e := range alone.Events {
+		if e.Kind == "step" || e.Kind == "stepfile" {
+			steps = append(steps, e)
+		}
+	}
+	run := sc.Clone()
+	if len(steps) == 0 {
+		run.Peer.GateSite, run.Peer.GateOcc = "none", 1
+	} else if run.Peer.GateSite == "" {
+		var sites []string
+		bySite := map[string][]Event{}
+		for _, e := range steps {
+			if len(bySite[e.Site]) == 0 {
+				sites = append(sites, e.Site)
+			}
+			bySite[e.Site] = append(bySite[e.Site], e)
+		}
+		pick := sc.MetaInt("gate_pick")
+		of := bySite[sites[pick%len(sites)]]
+		e := of[(pick/len(sites))%len(of)]
+		run.Peer.GateSite, run.Peer.GateOcc = e.Site, e.Occ
+	}
+	return run
+}
+
 // --- judging -------------------------------------------------------------------------
 
 var (
@@ -543,6 +573,25 @@ func sameStderr(a, b *Outcome) bool {
 	return classA == classB && head(a) == head(b)
 }
 
+// stderrKey: what of stderr must repeat from run to run. For a run that crashed that is the panic class with
+// its first yq frame and whatever was printed before the dump (the dump itself lists runtime goroutines,
+// which differ with GOMAXPROCS).
+func stderrKey(o *Outcome) string {
+	crashed, _ := o.Crashed()
+	if !crashed {
+		return maskStderr(o.Stderr)
+	}
+	s := string(o.Stderr)
+	cut := len(s)
+	for _, m := range []string{"panic: ", "fatal error: ", "runtime: "} {
+		if i := strings.Index(s, m); i >= 0 && i < cut {
+			cut = i
+		}
+	}
+	class, _ := PanicSite(s)
+	return "CRASH " + class + " | " + maskStderr([]byte(s[:cut]))
+}
+
 var siblingTempRe = regexp.MustCompile(`\.yq-tmp-\d+`)
 
 func filesDigest(m map[string]FileState) string {
@@ -575,32 +624,8 @@ func (C18) Judge(c *Ctx, sc *Scenario) []Violation {
 		aloneA := &Scenario{Kind: "proc", Argv: sc.Argv, Files: sc.Files, TmpOther: sc.TmpOther}
 		aloneB := &Scenario{Kind: "proc", Argv: sc.Peer.Argv, Files: sc.Files, TmpOther: sc.TmpOther}
 		oa, ob := c.Exec(aloneA), c.Exec(aloneB)
-		// the gate: the gate_pick-th step boundary of the first process's own run
-		var steps []Event
-		for _, e := range oa.Events {
-			if e.Kind == "step" || e.Kind == "stepfile" {
-				steps = append(steps, e)
-			}
-		}
-		run := sc.Clone()
+		run := resolveGate(sc, oa)
 		kind := sc.MetaString("kind")
-		if len(steps) == 0 {
-			run.Peer.GateSite, run.Peer.GateOcc = "none", 1
-		} else if run.Peer.GateSite == "" {
-			// a site first, then one of its occurrences: a step that repeats per line does not crowd out the rest
-			var sites []string
-			bySite := map[string][]Event{}
-			for _, e := range steps {
-				if len(bySite[e.Site]) == 0 {
-					sites = append(sites, e.Site)
-				}
-				bySite[e.Site] = append(bySite[e.Site], e)
-			}
-			pick := sc.MetaInt("gate_pick")
-			of := bySite[sites[pick%len(sites)]]
-			e := of[(pick/len(sites))%len(of)]
-			run.Peer.GateSite, run.Peer.GateOcc = e.Site, e.Occ
-		}
 		both := c.Exec(run)
 		if !c.Quiet {
 			c.Count("peers.ran." + both.PeerRan)
